@@ -53,6 +53,11 @@ int libwifi_add_tag(struct libwifi_tagged_parameters *tags, struct libwifi_tagge
 }
 
 int libwifi_remove_tag(struct libwifi_tagged_parameters *tags, int tag_number) {
+    // Nothing to remove from an empty list
+    if (tags->length == 0) {
+        return 0;
+    }
+
     // Initalise a tag iterator
     struct libwifi_tag_iterator it = {0};
     if (libwifi_tag_iterator_init(&it, tags->parameters, tags->length) != 0) {
@@ -142,6 +147,12 @@ int libwifi_quick_add_tag(struct libwifi_tagged_parameters *tags, int tag_number
 
 int libwifi_check_tag(struct libwifi_tagged_parameters *tags, int tag_number) {
     int tag_count = 0;
+
+    // An empty list holds no tag of any number
+    if (tags->length == 0) {
+        return 0;
+    }
+
     struct libwifi_tag_iterator it = {0};
     if (libwifi_tag_iterator_init(&it, tags->parameters, tags->length) != 0) {
         return -EINVAL;
